@@ -53,6 +53,8 @@ Section Top.
   Hypothesis Hnd : NoDup cands.
   Hypothesis Hperm : Permutation cands' cands.
   Hypothesis Hne : cands <> [].
+  (* the failure-domain service knows the existing holders too *)
+  Hypothesis Hex : forall e, In e ex0 -> In e (map (hd 0) topo).
 
   Let n := nlevels topo.
   Let cs := map (chain_of topo) cands'.
@@ -122,28 +124,37 @@ Section Top.
   Lemma idx_knd L : (L < n)%nat -> NoDup (map fst (nth L idx [])).
   Proof. intros HL. apply (build_index_keys_nodup cs n L cs_ok HL). Qed.
 
+  Lemma known_in_topo h : known cands ex0 h -> In h (map (hd 0) topo).
+  Proof. intros [H|H]; auto. Qed.
+
   Lemma nest_dom : topo_nested topo = true ->
-    forall L x y, (S L < n)%nat -> In x cands -> In y cands ->
+    forall L x y, (S L < n)%nat -> known cands ex0 x -> known cands ex0 y ->
                   dom topo L x = dom topo L y -> dom topo (S L) x = dom topo (S L) y.
   Proof.
     intros Hn L x y HL Hx Hy Heq. unfold dom in *.
     destruct (topo_uniform_spec topo Hu) as (_ & _ & Hnonempty).
-    apply (topo_nested_spec topo Hn); auto; apply chain_of_hd; auto.
+    apply (topo_nested_spec topo Hn); auto; apply chain_of_hd; auto; apply known_in_topo; auto.
   Qed.
 
-  Lemma top_sound num o perms R :
-    allocate idx num ex0 down o perms = Some R ->
+  Lemma ex_chain_len e : In e ex0 -> length (chain_of topo e) = n.
+  Proof.
+    intros He. destruct (topo_uniform_spec topo Hu) as (Hl & _ & Hnonempty).
+    rewrite Forall_forall in Hl. apply Hl. apply chain_of_hd; auto.
+  Qed.
+
+  Lemma top_sound exch num o perms R :
+    allocate idx num exch ex0 down o perms = Some R ->
     length R = num /\ NoDup R /\ (forall r, In r R -> In r cands /\ ~ In r ex0 /\ ~ In r down).
   Proof. apply alloc_sound_lemma. apply idx_all_ok. Qed.
 
   Lemma top_spread num o perms R :
-    topo_nested topo = true -> (forall e, In e ex0 -> In e cands) ->
-    allocate idx num ex0 down o perms = Some R ->
+    topo_nested topo = true ->
+    allocate idx num (map (chain_of topo) ex0) ex0 down o perms = Some R ->
     forallb (spread_level topo cands ex0 down R) (seq 0 n) = true.
   Proof.
-    intros Hn Hvis Ha. apply forallb_forall. intros L HL. apply in_seq in HL.
-    apply (alloc_spread_section topo cands ex0 down n idx idx_len idx_level_ok idx_key idx_knd
-                                (nest_dom Hn) Hvis num o perms R Ha). lia.
+    intros Hn Ha. apply forallb_forall. intros L HL. apply in_seq in HL.
+    apply (alloc_spread_section topo cands ex0 down (map (chain_of topo) ex0) n idx idx_len idx_level_ok idx_key idx_knd
+                                (nest_dom Hn) eq_refl ex_chain_len num o perms R Ha). lia.
   Qed.
 End Top.
 
@@ -151,11 +162,11 @@ End Top.
 Lemma verdict_some_ok topo cands cands' ex0 down num o perms R :
   topo_uniform topo = true -> (forall h, In h cands -> In h (map (hd 0) topo)) -> NoDup cands ->
   Permutation cands' cands ->
-  all_existing_visible cands ex0 = true ->
-  allocate (build_index (map (chain_of topo) cands')) num ex0 down o perms = Some R ->
+  (forall e, In e ex0 -> In e (map (hd 0) topo)) ->
+  allocate (build_index (map (chain_of topo) cands')) num (map (chain_of topo) ex0) ex0 down o perms = Some R ->
   alloc_verdict topo cands ex0 down num false (Some R) = V_OK.
 Proof.
-  intros Hu Hc Hnd Hperm Hvis Ha.
+  intros Hu Hc Hnd Hperm Hex Ha.
   destruct cands as [|c0 ct] eqn:Ec.
   - (* no candidates: the index is empty, only num = 0 can succeed *)
     apply Permutation_sym, Permutation_nil in Hperm. subst cands'. simpl in Ha. unfold allocate in Ha. simpl in Ha.
@@ -166,7 +177,7 @@ Proof.
     match goal with |- context[negb ?a] => replace a with true by (symmetry; exact H) end. reflexivity.
   - rewrite <- Ec in *.
     assert (Hne : cands <> []) by (rewrite Ec; discriminate).
-    destruct (top_sound topo cands cands' ex0 down Hu Hc Hnd Hperm Hne num o perms R Ha) as (Hl & Hd & Hr).
+    destruct (top_sound topo cands cands' ex0 down Hu Hc Hnd Hperm Hne _ num o perms R Ha) as (Hl & Hd & Hr).
     unfold alloc_verdict. simpl.
     rewrite Hl, Nat.eqb_refl. simpl.
     assert (Hdb : distinctb R = true) by (apply distinctb_NoDup; auto). rewrite Hdb. simpl.
@@ -180,46 +191,7 @@ Proof.
     rewrite Heb.
     destruct (topo_uniform topo && topo_nested topo) eqn:E; simpl; auto.
     apply andb_true_iff in E as [_ Hn].
-    assert (Hv : forall e, In e ex0 -> In e cands).
-    { intros e He. unfold all_existing_visible in Hvis. rewrite forallb_forall in Hvis. apply mem_In. auto. }
-    rewrite (top_spread topo cands cands' ex0 down Hu Hc Hnd Hperm Hne num o perms R Hn Hv Ha). reflexivity.
-Qed.
-
-(* without the visibility hypothesis the only clause that can fail is the spread clause, and it is then
-   reported with the dedicated code *)
-Lemma verdict_some_any topo cands cands' ex0 down num o perms R :
-  topo_uniform topo = true -> (forall h, In h cands -> In h (map (hd 0) topo)) -> NoDup cands ->
-  Permutation cands' cands ->
-  allocate (build_index (map (chain_of topo) cands')) num ex0 down o perms = Some R ->
-  alloc_verdict topo cands ex0 down num false (Some R) = V_OK \/
-  (alloc_verdict topo cands ex0 down num false (Some R) = V_SPREAD_HIDDEN_EXISTING /\
-   all_existing_visible cands ex0 = false).
-Proof.
-  intros Hu Hc Hnd Hperm Ha.
-  destruct (all_existing_visible cands ex0) eqn:Hvis.
-  - left. eapply verdict_some_ok; eauto.
-  - destruct cands as [|c0 ct] eqn:Ec.
-    + apply Permutation_sym, Permutation_nil in Hperm. subst cands'. unfold allocate in Ha. simpl in Ha.
-      destruct num; [|discriminate]. inversion Ha; subst. unfold alloc_verdict. simpl.
-      destruct (topo_uniform topo && topo_nested topo) eqn:E; simpl; auto.
-      assert (forallb (spread_level topo [] ex0 down []) (seq 0 (nlevels topo)) = true).
-      { apply forallb_forall. intros L _. unfold spread_level. simpl. reflexivity. }
-      match goal with |- context[negb ?a] => replace a with true by (symmetry; exact H) end. auto.
-    + rewrite <- Ec in *.
-      assert (Hne : cands <> []) by (rewrite Ec; discriminate).
-      destruct (top_sound topo cands cands' ex0 down Hu Hc Hnd Hperm Hne num o perms R Ha) as (Hl & Hd & Hr).
-      unfold alloc_verdict. simpl.
-      rewrite Hl, Nat.eqb_refl. simpl.
-      assert (Hdb : distinctb R = true) by (apply distinctb_NoDup; auto). rewrite Hdb. simpl.
-      assert (Hcb : forallb (fun h => mem h cands) R = true).
-      { apply forallb_forall. intros r Hrin. apply mem_In. apply Hr; auto. }
-      rewrite Hcb. simpl.
-      assert (Heb : existsb (fun h => mem h ex0 || mem h down) R = false).
-      { destruct (existsb (fun h => mem h ex0 || mem h down) R) eqn:E; auto.
-        apply existsb_exists in E as (r & Hrin & Hm). destruct (Hr r Hrin) as (_ & H1 & H2).
-        apply orb_true_iff in Hm as [Hm|Hm]; apply mem_In in Hm; tauto. }
-      rewrite Heb, Hvis.
-      destruct (topo_uniform topo && topo_nested topo && negb (forallb (spread_level topo cands ex0 down R) (seq 0 (nlevels topo)))); auto.
+    rewrite (top_spread topo cands cands' ex0 down Hu Hc Hnd Hperm Hne Hex num o perms R Hn Ha). reflexivity.
 Qed.
 
 (* ---------- a concrete witness for the finding, and non-vacuity ---------- *)
@@ -232,13 +204,17 @@ Definition w_tss : list tsdata :=
     {| ts_addr := 3; ts_beaten := true; ts_last := 95%Z; ts_avail := 5000 |};
     {| ts_addr := 4; ts_beaten := true; ts_last := 95%Z; ts_avail := 5000 |} ].
 
+(* without the explicit failure-domain lookup for existing holders (exchains = [] is the algorithm as it was
+   before the repair) the spread clause fails; with it, the same input is placed in the other rack *)
 Lemma hidden_existing_witness :
-  exists topo cfg tss num existing down o perms R,
+  exists topo cfg tss num existing down o perms R R',
     topo_uniform topo = true /\ topo_nested topo = true /\
-    allocate_from_monitor cfg tss topo [] num existing down o perms = Some R /\
-    alloc_verdict topo (candidates cfg tss) existing down num false (Some R) = V_SPREAD_HIDDEN_EXISTING.
+    allocate (build_index (map (chain_of topo) (candidates cfg tss))) num [] existing down o perms = Some R /\
+    alloc_verdict topo (candidates cfg tss) existing down num false (Some R) = V_SPREAD_HIDDEN_EXISTING /\
+    allocate_from_monitor cfg tss topo [] num existing down o perms = Some R' /\
+    alloc_verdict topo (candidates cfg tss) existing down num false (Some R') = V_OK.
 Proof.
-  exists w_topo, w_cfg, w_tss, 1%nat, [2], [], [0], [], [1]. vm_compute. repeat split; reflexivity.
+  exists w_topo, w_cfg, w_tss, 1%nat, [2], [], [0], [], [1], [3]. vm_compute. repeat split; reflexivity.
 Qed.
 
 (* non-vacuity: a 3-level nested forest, 7 candidates, one existing holder (a candidate), one server being
@@ -249,7 +225,7 @@ Definition nv_cands : list host := [1; 2; 3; 4; 5; 6; 7].
 Example nv_hyps :
   topo_uniform nv_topo = true /\ topo_nested nv_topo = true /\ NoDup nv_cands /\
   all_existing_visible nv_cands [1] = true /\
-  allocate (build_index (map (chain_of nv_topo) nv_cands)) 3 [1] [5] [4; 1; 0; 2] [] = Some [6; 4; 7].
+  allocate (build_index (map (chain_of nv_topo) nv_cands)) 3 (map (chain_of nv_topo) [1]) [1] [5] [4; 1; 0; 2] [] = Some [6; 4; 7].
 Proof.
   split; [vm_compute; reflexivity|]. split; [vm_compute; reflexivity|].
   split; [apply distinctb_NoDup; vm_compute; reflexivity|]. split; vm_compute; reflexivity.
